@@ -888,6 +888,8 @@ package kafka
 // CommitOffsets: the request handed to the coordinator carries only what the caller supplied - every (topic, partition,
 // offset) entry of the request is an entry of the offsets map (so the committed offset can never exceed what the commit
 // loop stashed) - and an entry written for one topic is not disturbed while the entries of the next topic are built.
+// It also carries ALL of it: one topic entry per topic of the map and, in each, one partition entry per partition of
+// that topic (counted by the number of keys the two map iterations visit), so no offset the caller supplied is dropped.
 //@ func (*Conn).offsetCommit
 //@   trusted sends the OffsetCommit request on the coordinator connection (its framing belongs to C04/C11)
 //@ func (*Generation).log
@@ -897,6 +899,9 @@ package kafka
 //@   modifies heap
 //@   callsite iface coordinator.offsetCommit requires forall i :: 0 <= i && i < len($1.Topics) ==> haskey(offsets, $1.Topics[i].Topic) && (forall j :: 0 <= j && j < len($1.Topics[i].Partitions) ==> (exists p int :: haskey(offsets[$1.Topics[i].Topic], p) && int32(p) == $1.Topics[i].Partitions[j].Partition && offsets[$1.Topics[i].Topic][p] == $1.Topics[i].Partitions[j].Offset))
 //@   loop 0 invariant forall i :: 0 <= i && i < len(topics) ==> haskey(offsets, topics[i].Topic) && (forall j :: 0 <= j && j < len(topics[i].Partitions) ==> (exists p int :: haskey(offsets[topics[i].Topic], p) && int32(p) == topics[i].Partitions[j].Partition && offsets[topics[i].Topic][p] == topics[i].Partitions[j].Offset))
+//@   callsite iface coordinator.offsetCommit requires len($1.Topics) == len(offsets) && (forall i :: 0 <= i && i < len($1.Topics) ==> len($1.Topics[i].Partitions) == len(offsets[$1.Topics[i].Topic]))
+//@   loop 0 invariant len(topics) == visitedcount(0) && (forall i :: 0 <= i && i < len(topics) ==> len(topics[i].Partitions) == len(offsets[topics[i].Topic]))
+//@   loop 1 invariant len(topics) == visitedcount(0) - 1 && len(t.Partitions) == visitedcount(1) && (forall i :: 0 <= i && i < len(topics) ==> len(topics[i].Partitions) == len(offsets[topics[i].Topic]))
 //@   loop 1 invariant haskey(offsets, topic)
 //@   loop 1 invariant partitions == offsets[topic]
 //@   loop 1 invariant same(t.Topic, topic)
